@@ -27,7 +27,7 @@ RULE = ('(a) AutomatonStepper over synthesized Streett implementations of '
         'AutomatonStepper and Scheduler among them): every local state '
         'handed to a component holds exactly the variables it declares with '
         'the right values, hidden variables appear globally only mangled, '
-        'every recorded step satisfies every component\'s step function; components whose mangled hidden name equals a visible name are either refused (AssertionError) or kept apart; when a component refuses a step (ValueError) the assembly records none. '
+        'every recorded step satisfies every component\'s step function; components whose mangled hidden name equals a visible name are either refused (AssertionError) or kept apart; when a component refuses a step (ValueError) the assembly records none; the recorded history (past + state) is exactly the sequence of states taken, also for the second and later assemblies of a process. '
         'non-trivial = stepper has an enabled and a disabled state / '
         'assembly has a hidden variable; distinct = case description')
 ASSUMPTIONS = ['dd trusted', 'action tables read out at bit level']
@@ -524,6 +524,16 @@ def run_assembly(case, acc):
                       where=where)
         return
     # expected global naming
+    # the recorded behaviour (`past` + current state) is exactly the
+    # sequence of states the assembly went through - no more, no less
+    recorded = [dict(x) for x in asm.past] + [dict(asm.state)]
+    if recorded != hist:
+        acc.ev()
+        acc.violation('recorded_history_differs_from_states_taken', case,
+                      detail=dict(recorded=recorded[:6], taken=hist[:6],
+                                  n_recorded=len(recorded),
+                                  n_taken=len(hist)))
+        return
     # the name a component's hidden variable has in the global state is the
     # library's business (`steps.add_prefix`); a hidden variable that shows
     # up globally under its own, unmangled name has leaked
